@@ -249,7 +249,8 @@ class CompileCase:
         # asks for the same function
         level = compact
         if D.FORMS["rng"] is not None and D.FORMS["rng"].random() < 0.3:
-            level = D.FORMS["rng"].choice({0: (0, -1, -4), 1: (1,), 2: (2, 3, 7)}[min(max(compact, 0), 2)])
+            # (a plain flag is an integer too: True is level 1, False level 0)
+            level = D.FORMS["rng"].choice({0: (0, -1, -4, False), 1: (1, True, True), 2: (2, 3, 7)}[min(max(compact, 0), 2)])
         pmap = self.parameters or None
         if pmap is None and D.FORMS["rng"] is not None and D.FORMS["rng"].random() < 0.3:
             # set-up code that collects `{name: sym for ... if symbolic}` and ends up with nothing symbolic: an EMPTY mapping
